@@ -183,7 +183,7 @@ theorem opUnlock_inv (db : DB) (c : Cmd) (h : DBInv db) : DBInv (opUnlock db c).
     simp only [applyUnlock]
     exact wake_setKey_inv _ h rfl (release_inv hk hm)
 
-theorem fireTimeout_inv (db : DB) (w : Waiter) (h : DBInv db) : DBInv (fireTimeout db w).1 := by
+theorem fireTimeout_inv (db : DB) (key : Nat) (w : Waiter) (h : DBInv db) : DBInv (fireTimeout db key w).1 := by
   unfold fireTimeout
   exact setKey_inv (h.of_keys_eq rfl) (waiters_inv (getKey_inv h _) _ _)
 
@@ -237,7 +237,9 @@ theorem expireStep_inv (acc : DB × List Hold) (hd : Hold) (h : DBInv acc.1) : D
   · exact h
 
 theorem fireTimeoutStep_inv (acc : DB × List Reply) (w : Waiter) (h : DBInv acc.1) : DBInv (fireTimeoutStep acc w).1 := by
-  unfold fireTimeoutStep; exact fireTimeout_inv _ _ h
+  unfold fireTimeoutStep; split
+  · exact fireTimeout_inv _ _ _ h
+  · exact h
 
 theorem fireExpireStep_inv (acc : DB × List Reply) (hd : Hold) (h : DBInv acc.1) : DBInv (fireExpireStep acc hd).1 := by
   unfold fireExpireStep
